@@ -1,2 +1,237 @@
-/- Property theorems for C12 (placeholder until the proofs land). -/
-import Avt.Spec.C12
+/-
+  Avt.Props.C12 — property C12: the result of feeding a string is independent of how it is chunked.
+
+  Technique (DESIGN.md §6 C12): lock-step relation `Frame.Rel` ("`a` is `b` with more scrollback":
+  every field equal except the amount of retained scrollback, `trimNeeded`, the dirty flags) is
+  preserved by `Terminal.execute f` for EVERY `Function` (`Frame.frame_execute`, all 48 constructors,
+  buffer switches and RIS included), `gc` only drops a prefix of the scrollback (`Frame.gc_spec`), and
+  any series of `feed_str` calls is shadowed by one `feedAll` of the concatenated input
+  (`Frame.runFeeds_ghost`).  The conclusions are stated with the decidable predicates of
+  `Avt.Spec.C12` — the ones the oracle evaluates on the implementation's states.
+
+  Obligations (all kernel-checked, no extra hypotheses beyond `Inv` of the start state):
+    C12_frame_execute      frame lemma, all functions (`coveredFrame f = true` for every f)
+    C12_feedStrs           any series of feed_str calls vs one feed_str of the whole: `equivChunk`;
+                           unlimited: same primary scrollback, same `lines()` on the primary screen
+                           (and on the alternate screen given C13's `altClean` of the two end states)
+    C12_feedStr            the two-piece special case, in the shape of DESIGN.md
+    C12_feedStrs_total     the chunked session panics iff the whole feed panics
+    C12_feedChars_partial  per-character `Vt.feed` vs `feed_str`: `equivChunk` for every limit;
+                           unlimited: same primary scrollback, same `lines()` IF the primary screen is
+                           active at the end (restriction = known finding KF4)
+    C12_feed_full_false    the unrestricted `lines()` clause for `Vt.feed` (`C12_feed_full`) is FALSE of
+                           the pinned code: witness 7x1, `CSI ?47h` + 8 letters (KF4)
+-/
+import Avt.Lemmas.FrameStream
+
+namespace Avt.C12
+open Avt Avt.Frame Avt.Spec.C12
+
+/-- a series of `feed_str` calls on consecutive pieces -/
+def feedStrs (v : Vt) (chunks : List (List Nat)) : Option Vt := (runFeeds v chunks).map (·.1)
+
+/-- per-character feeding through `Vt::feed` is, by definition, the fold `Vt.feedAll` -/
+def feedChars (v : Vt) (xs : List Nat) : Option Vt := v.feedAll xs
+
+theorem feedChars_cons (v : Vt) (c : Nat) (cs : List Nat) :
+    feedChars v (c :: cs) = match v.feed c with | some v' => feedChars v' cs | none => none := rfl
+
+/-- **Frame lemma** (every `Function`): related terminals step to related terminals, or both panic. -/
+theorem C12_frame_execute {P : Par} {a b a' : Terminal} {f : Function} (hg : P.g = true)
+    (R : Rel P a b) (hs : P.s = true ∨ f ≠ .ris) (hc : coveredFrame f = true)
+    (h : a.execute f = some a') :
+    ∃ b' P', b.execute f = some b' ∧ Rel P' a' b' ∧ P'.g = true ∧ P'.s = P.s ∧ P'.L = P.L
+      ∧ (f ≠ .ris → P'.prim = P.prim) ∧ (f = .ris → P'.prim = []) :=
+  frame_execute hg R hs hc h
+
+theorem C12_covered_all (f : Function) : coveredFrame f = true := rfl
+
+private theorem prim_nil (s g : Bool) (L : Option Nat) (T : BufferType) :
+    (⟨s, g, L, T, [], []⟩ : Par).prim = [] := by cases T <;> rfl
+
+/-- the whole feed seen from the ghost: `feed_str v xs` is `finish` of the ghost -/
+private theorem whole_ghost {v w : Vt} {cw : Changes} {xs : List Nat} (hI : Inv v = true)
+    (hw : v.feedStr xs = some (w, cw)) :
+    ∃ g Q, v.feedAll xs = some g ∧ VRel Q g w ∧ Q.s = true
+      ∧ (v.terminal.scrollbackLimit = none → Q.prim = []) := by
+  unfold Vt.feedStr at hw
+  cases hg : v.feedAll xs with
+  | none => simp [hg] at hw
+  | some g =>
+    simp only [hg, Option.map_some, Option.some.injEq] at hw
+    have h0 := feedAll_rel (VRel.ofInv hI) rfl xs (Or.inl rfl)
+    rw [hg] at h0
+    obtain ⟨P1, R1, st1⟩ := h0
+    obtain ⟨P2, R2, _, h2s, h2L, _, h2p⟩ := finish_rel R1
+    have hwf : w = g.finish.1 := by rw [hw]
+    refine ⟨g, P2, rfl, hwf ▸ R2, h2s.trans st1.s, fun hL => ?_⟩
+    have hL1 : P1.L = none := st1.L.trans hL
+    have p1 : P1.prim = [] := by
+      rcases st1.reset with h | h
+      · rw [h]; exact prim_nil _ _ _ _
+      · exact h
+    rw [h2p, p1, finish_unlimited R1 st1.s hL1]; rfl
+
+/-- **C12, `feed_str`.**  Any series of `feed_str` calls on consecutive pieces (cut anywhere) and one
+    `feed_str` of the whole leave the same visible screen, cursor, modes, parser and parked buffer
+    (`equivChunk`), for every scrollback limit; with unlimited scrollback also the same primary
+    scrollback, hence the same `lines()` while the primary screen is showing — and on the alternate
+    screen too, given that `feed_str` leaves no scrollback there (`altClean`, property C13). -/
+theorem C12_feedStrs {v v2 w : Vt} {cw : Changes} {chunks : List (List Nat)}
+    (hI : Inv v = true) (h : feedStrs v chunks = some v2)
+    (hw : v.feedStr chunks.flatten = some (w, cw)) :
+    equivChunk v2 w = true
+    ∧ (v.terminal.scrollbackLimit = none →
+        v2.terminal.primaryBuffer.sb = w.terminal.primaryBuffer.sb
+        ∧ (v2.terminal.activeBufferType = .primary → v2.lines = w.lines)
+        ∧ (altClean v2 = true → altClean w = true → equivLines v2 w = true)) := by
+  unfold feedStrs at h
+  cases hr : runFeeds v chunks with
+  | none => simp [hr] at h
+  | some rd =>
+    obtain ⟨v2', d⟩ := rd
+    simp only [hr, Option.map_some, Option.some.injEq] at h
+    subst h
+    obtain ⟨g, P', hg, R', _, h3s, h3L, _, _, h3e⟩ :=
+      runFeeds_ghost chunks (VRel.ofInv hI) rfl (Or.inl rfl) hr
+    obtain ⟨g', Q, hg', RQ, hQs, hQp⟩ := whole_ghost hI hw
+    rw [hg] at hg'; cases hg'
+    have hP's : P'.s = true := h3s
+    have heq : equivChunk v2' w = true := equivChunk_of R' RQ hP's hQs
+    refine ⟨heq, fun hL => ?_⟩
+    have p1 : P'.prim = [] := h3e rfl hL (prim_nil _ _ _ _)
+    have p2 : Q.prim = [] := hQp hL
+    have hsb := primarySb_of R'.term RQ.term p1 p2
+    have hlines : v2'.terminal.activeBufferType = .primary → v2'.lines = w.lines :=
+      fun hT => lines_of R'.term RQ.term p1 p2 hT
+    refine ⟨hsb, hlines, fun c1 c2 => ?_⟩
+    unfold equivLines
+    have hl : v2'.lines = w.lines := by
+      cases hT : v2'.terminal.activeBufferType with
+      | primary => exact hlines hT
+      | alternate =>
+        have hTw : w.terminal.activeBufferType = .alternate := by
+          rw [← RQ.term.activeBufferType, R'.term.activeBufferType]; exact hT
+        simp only [altClean, hT, hTw, bne_self_eq_false, Bool.false_or, List.isEmpty_iff] at c1 c2
+        show v2'.terminal.buffer.lines = w.terminal.buffer.lines
+        unfold Buffer.lines
+        rw [c1, c2, ← R'.term.buf.view, ← RQ.term.buf.view]
+    simp [heq, hl, hsb]
+
+/-- the two-piece form of DESIGN.md: `feedStr (feedStr v xs).1 ys` vs `feedStr v (xs ++ ys)` -/
+theorem C12_feedStr {v v1 v2 w : Vt} {c1 c2 cw : Changes} {xs ys : List Nat}
+    (hI : Inv v = true) (h1 : v.feedStr xs = some (v1, c1)) (h2 : v1.feedStr ys = some (v2, c2))
+    (hw : v.feedStr (xs ++ ys) = some (w, cw)) :
+    equivChunk v2 w = true
+    ∧ (v.terminal.scrollbackLimit = none →
+        v2.terminal.primaryBuffer.sb = w.terminal.primaryBuffer.sb
+        ∧ (v2.terminal.activeBufferType = .primary → v2.lines = w.lines)
+        ∧ (altClean v2 = true → altClean w = true → equivLines v2 w = true)) := by
+  have h : feedStrs v [xs, ys] = some v2 := by
+    simp [feedStrs, runFeeds, h1, h2]
+  have hw' : v.feedStr [xs, ys].flatten = some (w, cw) := by simpa using hw
+  exact C12_feedStrs hI h hw'
+
+/-- chunking cannot turn a panic into a success or vice versa -/
+theorem C12_feedStrs_total {v : Vt} (chunks : List (List Nat)) (hI : Inv v = true) :
+    (feedStrs v chunks).isSome = (v.feedStr chunks.flatten).isSome := by
+  -- both sides are decided by the ghost `v.feedAll chunks.flatten`
+  have key : ∀ (ss : List (List Nat)) (P : Par) (g u : Vt), VRel P g u → P.g = true → P.s = true →
+      (runFeeds u ss).isSome = (g.feedAll ss.flatten).isSome := by
+    intro ss
+    induction ss with
+    | nil => intro P g u _ _ _; rfl
+    | cons s ss ih =>
+      intro P g u R hg hs
+      have h1 := feedAll_rel R hg s (Or.inl hs)
+      rw [List.flatten_cons, feedAll_append]
+      simp only [runFeeds, Vt.feedStr]
+      cases hu : u.feedAll s with
+      | none =>
+        cases hg1 : g.feedAll s with
+        | none => rfl
+        | some g1 => rw [hu, hg1] at h1; exact False.elim h1
+      | some r =>
+        cases hg1 : g.feedAll s with
+        | none => rw [hu, hg1] at h1; exact False.elim h1
+        | some g1 =>
+          rw [hu, hg1] at h1
+          obtain ⟨P1, R1, st1⟩ := h1
+          obtain ⟨P2, R2, h2g, h2s, _, _, _⟩ := finish_rel R1
+          have := ih P2 g1 r.finish.1 R2 (h2g.trans st1.g) ((h2s.trans st1.s).trans hs)
+          simp only [Option.map_some]
+          rw [← this]
+          cases runFeeds r.finish.1 ss <;> rfl
+  unfold feedStrs Vt.feedStr
+  rw [Option.isSome_map, Option.isSome_map]
+  exact key chunks _ v v (VRel.ofInv hI) rfl rfl
+
+/-- **C12, `Vt::feed` per character (restricted).**  `feed_str v xs` and feeding `xs` one character at
+    a time through `Vt::feed` agree on everything in `equivChunk` for every limit; with unlimited
+    scrollback the primary scrollback agrees, and `lines()` agrees PROVIDED the primary screen is
+    active at the end.  (On the alternate screen it does not: known finding KF4, see below.) -/
+theorem C12_feedChars_partial {v g w : Vt} {cw : Changes} {xs : List Nat}
+    (hI : Inv v = true) (hg : feedChars v xs = some g) (hw : v.feedStr xs = some (w, cw)) :
+    equivChunk w g = true
+    ∧ (v.terminal.scrollbackLimit = none →
+        w.terminal.primaryBuffer.sb = g.terminal.primaryBuffer.sb
+        ∧ (g.terminal.activeBufferType = .primary → w.lines = g.lines)) := by
+  obtain ⟨g', Q, hg', RQ, hQs, hQp⟩ := whole_ghost hI hw
+  unfold feedChars at hg
+  rw [hg] at hg'; cases hg'
+  have h0 := feedAll_rel (VRel.ofInv hI) rfl xs (Or.inl rfl)
+  rw [hg] at h0
+  obtain ⟨P1, R1, st1⟩ := h0
+  refine ⟨equivChunk_of RQ R1 hQs st1.s, fun hL => ?_⟩
+  have p1 : P1.prim = [] := by
+    rcases st1.reset with h | h
+    · rw [h]; exact prim_nil _ _ _ _
+    · exact h
+  refine ⟨primarySb_of RQ.term R1.term (hQp hL) p1, fun hT => ?_⟩
+  have hTw : w.terminal.activeBufferType = .primary := by
+    rw [← RQ.term.activeBufferType]; exact hT
+  exact lines_of RQ.term R1.term (hQp hL) p1 hTw
+
+/-- the full `lines()` clause of C12 for `Vt::feed`, as the property states it -/
+def C12_feed_full : Prop :=
+  ∀ (v : Vt) (xs : List Nat), Inv v = true → v.terminal.scrollbackLimit = none →
+    (feedChars v xs).map Vt.lines = (v.feedStr xs).map (fun r => r.1.lines)
+
+/-- KF4 witness: a fresh 7x1 terminal without scrollback limit, `CSI ? 47 h` followed by eight letters -/
+def kf4Start : Vt := (Vt.new 7 1 none).getD default
+def kf4Input : List Nat :=
+  [0x1b, 0x5b, 0x3f, 0x34, 0x37, 0x68, 0x5a, 0x48, 0x44, 0x47, 0x59, 0x5a, 0x46, 0x58]
+
+/-- **The full statement is false of the pinned code** (known finding KF4): `Vt::feed` never runs `gc`,
+    so the row scrolled off the alternate screen is still in `lines()` (2 lines vs 1). -/
+theorem C12_feed_full_false : ¬ C12_feed_full := by
+  intro h
+  have h1 := h kf4Start kf4Input (by decide +kernel) (by decide +kernel)
+  have h2 : ((feedChars kf4Start kf4Input).map Vt.lines ==
+             (kf4Start.feedStr kf4Input).map (fun r => r.1.lines)) = false := by decide +kernel
+  rw [h1] at h2
+  simp at h2
+
+/-- … while everything C12 states apart from that clause does hold on the witness, and the oracle's
+    classifier recognises it -/
+example :
+    (match feedChars kf4Start kf4Input, kf4Start.feedStr kf4Input with
+     | some g, some (w, _) => equivChunk w g && kf4 w g && (g.lines.length == 2) && (w.lines.length == 1)
+     | _, _ => false) = true := by decide +kernel
+
+/-- the hypotheses of `C12_feedStr` are satisfiable on a non-trivial state: 4x2, limit 1, a scroll
+    region, text that wraps and scrolls, cut inside an escape sequence -/
+example :
+    (match Vt.new 4 2 (some 1) with
+     | some v =>
+       Inv v &&
+       (match v.feedStr [0x61, 0x62, 0x63, 0x64, 0x65, 0x0a, 0x1b, 0x5b, 0x33],
+              v.feedStr [0x61, 0x62, 0x63, 0x64, 0x65, 0x0a, 0x1b, 0x5b, 0x33, 0x31, 0x6d, 0x66, 0x0a, 0x67, 0x0a, 0x68] with
+        | some (v1, _), some (w, _) =>
+          (match v1.feedStr [0x31, 0x6d, 0x66, 0x0a, 0x67, 0x0a, 0x68] with
+           | some (v2, _) => equivChunk v2 w && (v2 != v1) && (w.terminal.buffer.sb.length == 1)
+           | none => false)
+        | _, _ => false)
+     | none => false) = true := by decide +kernel
+
+end Avt.C12
